@@ -72,7 +72,23 @@ type topCtx struct {
 	notes      map[string]bool
 	guardCalls []guardSpec
 	pruneN     int
+	clauseErrs map[string]string
 	started    time.Time // generation budget: a function whose exploration takes too long is cut off (capHit)
+}
+
+// clauseErr records that a labelled clause cannot be interpreted on this code; unlabelled clauses (plain invariants
+// that other clauses rely on) still abort the function.
+func (tc *topCtx) clauseErr(label, msg string) {
+	if label == "" {
+		bail("%s", msg)
+	}
+	if tc.clauseErrs == nil {
+		tc.clauseErrs = map[string]string{}
+	}
+	if _, ok := tc.clauseErrs[label]; !ok {
+		tc.clauseErrs[label] = msg
+	}
+	tc.notes["clause "+label+" not interpretable on this code: "+msg] = true
 }
 
 func (tc *topCtx) addObl(o *Obligation) {
@@ -165,7 +181,10 @@ func (fr *frame) runBlock(st *PState, b *ssa.BasicBlock, pred *ssa.BasicBlock, v
 						tc.notes[fmt.Sprintf("loop #%d invariant %q not assumed: %v", ord, c.Src, err)] = true
 						continue
 					}
-					bail("loop %d invariant: %v", ord, err)
+					// not interpretable on this code: its obligation has been recorded as undecided (assertInvariants);
+					// not assuming it is the weaker, sound choice
+					tc.notes[fmt.Sprintf("loop #%d invariant %q not assumed: %v", ord, c.Src, err)] = true
+					continue
 				}
 				st.Assume(t)
 			}
